@@ -49,6 +49,11 @@ def known_sigs():
     return _SIGS
 
 
+def known_adts():
+    p = os.path.join(os.path.dirname(__file__), 'known_adts.json')
+    return set(json.load(open(p))) if os.path.exists(p) else set()
+
+
 def _remap(x, loff, poff):
     """deep copy of a JSON fragment with locals and promoted indexes shifted"""
     if isinstance(x, dict):
@@ -188,6 +193,16 @@ def inline_program(prog, level=1):
     if level >= 2:
         from .combinators import expand_program
         expand_program(prog)
+    # indirections and parameter objects introduced by the inlined code
+    from .scalarise import normalise
+    prog.known_adts = known_adts()
+    prog.scalarised = {}
+    for f in prog.fns.values():
+        if f.has_body and f.crate in WORKSPACE and f.inlined:
+            nf, ns = normalise(f, prog)
+            if nf or ns:
+                prog.scalarised[f.key] = {'places_forwarded': nf, 'locals_split': len(ns)}
+                f._cache.clear()
     _split_all(prog)
     for f in prog.fns.values():
         if f.has_body and f.crate in WORKSPACE and f.inlined:
@@ -481,7 +496,18 @@ def thread_function(fn, prog):
             if not chain_blocks:
                 continue  # definition and switch in one block: P0 handles it
             if not any(len(preds.get(c, ())) > 1 for c in chain_blocks):
-                continue  # no join on the way: nothing to gain
+                # no join on the way (the other definitions were threaded away): decide the tests in place
+                hit = False
+                for (c, st, ov) in steps:
+                    if ov is not None and blocks[c]['t']['k'] == 'switch':
+                        blocks[c]['t'] = {'k': 'goto', 't': ov, 'thr': True}
+                        hit = True
+                if hit:
+                    preds = _preds(blocks)
+                    n += 1
+                    done = True
+                    break
+                continue
             base = len(blocks)
             copies = []
             for (c, st, ov) in steps:
